@@ -51,6 +51,7 @@ WORDS = ['alpha', 'beta', 'x', 'yy', 'caf' + chr(0xe9), '1', '-', "it's", 'say"h
          '[x]', '{y}', 'a,b', '&c', '*d', '!e', '%f', '@g', '|', '>']
 DQ = ['a', 'b', ' ', '"', '\\', '\n', '\t', chr(0xe9), chr(0x263a), chr(0x1F600), '\x07', '\x00', NEL, LS, PS, chr(0xa0), ':', '#',
       "'", '/', 'x', 'y z']
+PLAIN_ML = ['one\ntwo', 'p q\n\nr', 'first line\nsecond line\n\n\nlast', 'a b c d e f']     # multi-line plain (block context only)
 CORE = 'tag:yaml.org,2002:'
 
 
@@ -131,6 +132,9 @@ class Gen:
             v = r.choice(self.plain_pool) if r.random() < 0.95 else ''
             if v == '' and (flow or key):
                 v = 'w'
+            if not flow and not key and r.random() < 0.07:
+                v = r.choice(PLAIN_ML)
+                self.classes.add('plain_multiline')
             n = S(v, 'plain', tag, anchor)
         elif c < 0.55:
             n = S(' '.join(r.choice(WORDS) for _ in range(r.randint(0, 4))), 'single', tag, anchor)
@@ -269,6 +273,8 @@ class Render:
                 part.append('%TAG ' + h + ' ' + p + self.br)
             es = need_explicit
             part.append(self.block(d.root, -1, '---' if need_explicit else ''))
+            if self.r.random() < 0.3:
+                part.append(self.gap() or (self.br if (not self.tail_bs and self.r.random() < 0.3) else ''))
             last = i == len(docs) - 1
             nxt = docs[i + 1] if not last else None
             ee = bool(d.ee) or (nxt is not None and bool(nxt.version or nxt.tags))
@@ -346,12 +352,46 @@ class Render:
         out.append('"')
         return ''.join(out)
 
+    def fold(self, text, indent, oneline, p=0.25):
+        """Line folding of plain / single-quoted text: a single space between two non-space characters may become
+        break + indentation; an embedded LF is written as a break followed by one blank line per LF."""
+        r = self.r
+        pad = lambda: self.br + ' ' * (max(indent, 0) + r.randint(1, 3))
+        if oneline:
+            return text
+        out = []
+        i = 0
+        n = len(text)
+        while i < n:
+            ch = text[i]
+            if ch == '\n':
+                j = i
+                while j < n and text[j] == '\n':
+                    j += 1
+                out.append(self.br * (j - i) + pad())
+                i = j
+                continue
+            if ch == ' ' and 0 < i < n - 1 and text[i - 1] not in ' \n' and text[i + 1] not in ' \n' and r.random() < p:
+                out.append(pad())
+            else:
+                out.append(ch)
+            i += 1
+        return ''.join(out)
+
     def inline(self, n, indent, oneline):
         if n.style == 'plain':
+            if '\n' in n.value or (' ' in n.value and not oneline):
+                return self.fold(n.value, indent, oneline)
             return n.value
         if n.style == 'single':
-            return "'" + n.value.replace("'", "''") + "'"
+            return "'" + self.fold(n.value.replace("'", "''"), indent, oneline or '\n' in n.value, p=0.15) + "'"
         return self.dq(n.value, max(indent, 0), oneline)
+
+    def gap(self):
+        """Blank lines between structural lines (never directly after a block scalar: there they are content)."""
+        if not self.tail_bs and self.r.random() < 0.06:
+            return self.br * self.r.randint(1, 2)
+        return ''
 
     def block_scalar(self, n, indent):
         base = max(indent, 0)
@@ -450,12 +490,13 @@ class Render:
                 if self.comments and not self.tail_bs and r.random() < 0.05:
                     out.append(' ' * r.randint(0, 6) + '# own-line comment' + br)
                 out.append(self.block(it, ind, ' ' * ind + '-'))
+                out.append(self.gap())
         else:
             for k, v in n.pairs:
                 ks = None
                 if isinstance(k, A):
                     ks = '*' + k.name + ' '
-                elif isinstance(k, S) and k.style in ('plain', 'single', 'double') and not (k.style == 'plain' and k.value == ''):
+                elif isinstance(k, S) and k.style in ('plain', 'single', 'double') and not (k.style == 'plain' and (k.value == '' or '\n' in k.value)):
                     kp = self.props(k)
                     ks = ((kp + ' ') if kp else '') + self.inline(k, ind, True) + (' ' if r.random() < 0.2 else '')
                 elif isinstance(k, (Q, M)) and (k.flow or not (k.items if isinstance(k, Q) else k.pairs)):
@@ -467,6 +508,7 @@ class Render:
                 else:
                     out.append(self.block(k, ind, ' ' * ind + '?'))
                     out.append(self.block(v, ind, ' ' * ind + ':'))
+                out.append(self.gap())
         return ''.join(out)
 
 
